@@ -103,7 +103,7 @@ func checkC04(c C04Case, st *stats.Collector) error {
 		}
 		opts = append(opts, wopts...)
 		label := fmt.Sprintf("%s, topics=%v, %s [%d,%d)", m.name, c.Topics, exprNames[c.Expr], c.S, c.E)
-		r := mc.ReadMessages(bytesReader(file), false, false, 0, opts...)
+		r := mc.ReadMessagesMode(bytesReader(file), (reads+int(wl.Hash(c)%4))%4, false, false, 0, opts...)
 		reads++
 		if r.Panic != "" {
 			return pk.Failf("panic", "%s: %s", label, r.Panic)
